@@ -222,6 +222,14 @@ def _validate_chunk(args):
             total += len(lines)
             out.writelines(lines)
     rc, output, wall = tlc(workdir, "Trace.tla", "Trace.cfg", workers=1, timeout=timeout)
+    conformance_aborted = False
+    if rc != 0 and "CONSUMED" not in output:
+        # evaluating Chain!Apply on an observed state crashed TLC (a state the specification has no meaning for, e.g. on
+        # modified code): conformance is given up for this chunk, the property formulas are still evaluated
+        with open(os.path.join(workdir, "tlc.conformance-aborted.out"), "w") as fh:
+            fh.write(output)
+        conformance_aborted = True
+        rc, output, wall = tlc(workdir, "Trace.tla", "Trace_props.cfg", workers=1, timeout=timeout)
     with open(os.path.join(workdir, "tlc.out"), "w") as fh:
         fh.write(output)
     os.remove(os.path.join(workdir, "trace.ndjson"))
@@ -252,6 +260,9 @@ def _validate_chunk(args):
     m = TLC_STATS.search(output)
     if rc != 0 or consumed is None or consumed[0] != consumed[1] or not formulas:
         return {"error": "TLC trace validation did not complete (rc=%s consumed=%s): %s" % (rc, consumed, output[-3000:])}
+    if conformance_aborted:
+        conformance = {"steps_checked": 0, "diverged": 0, "unmodelled": total}
+        divergences.append({"trace": files[0] if files else "", "line": 0, "seq": 0, "kind": "-", "what": "conformance aborted", "detail": "TLC could not evaluate Chain!Apply on an observed state of this chunk"})
     return {"formulas": formulas, "violations": violations, "lines": total, "tlc_wall_s": wall,
             "divergences": divergences, "conformance": conformance,
             "states": int(m.group(2)) if m else total, "generated": int(m.group(1)) if m else total}
